@@ -118,6 +118,7 @@ class Translator:
         self.used_drop = set()
         self.used_nested = set()
         self.loop_depth = 0
+        self.expect_list_type = None
 
     # ---- names
     @staticmethod
@@ -132,6 +133,8 @@ class Translator:
                 self.used_alias.add(text)
                 name, typ = self.alias[text]
                 return E(name, typ)
+        if isinstance(node, ast.List) and not node.elts and self.expect_list_type:
+            return E("[]", self.expect_list_type)     # `name = []` for a name whose element type the kernel declares
         if isinstance(node, ast.List):
             items = [self.expr(e, env) for e in node.elts]
             if not items or any(isinstance(i, F) for i in items) or len({i.typ for i in items}) != 1:
@@ -189,6 +192,10 @@ class Translator:
                 if text == "-1":
                     return E(f"last {par(base.text)} {par(default)}", elem)
                 raise KernelError(f"list index {text}")
+            if not isinstance(base, F) and tuple_items(base.typ) and len(tuple_items(base.typ)) == 2 \
+                    and ast.unparse(node.slice) in ("0", "1"):
+                k = int(ast.unparse(node.slice))
+                return E(f"{'fst' if k == 0 else 'snd'} {par(base.text)}", tuple_items(base.typ)[k])
             if isinstance(base, F) or not base.typ.startswith("map:"):
                 raise KernelError(f"subscript of {getattr(base, 'typ', '?')}")
             key = self.expr(node.slice, env)
@@ -349,6 +356,18 @@ class Translator:
             if x.typ == "Z":
                 return x
             raise KernelError("math.floor of a non-number")
+        if ast.unparse(node.func) == "list" and len(node.args) == 1 and not node.keywords and isinstance(node.args[0], ast.Call) \
+                and ast.unparse(node.args[0].func) == "filter" and len(node.args[0].args) == 2 \
+                and isinstance(node.args[0].args[0], ast.Lambda) and len(node.args[0].args[0].args.args) == 1:
+            # list(filter(lambda x: test, seq))
+            lam, seq_node = node.args[0].args
+            seq = self.expr(seq_node, env)
+            if isinstance(seq, F) or not seq.typ.startswith("list "):
+                raise KernelError("filter over a non-list")
+            inner = dict(env)
+            name = lam.args.args[0].arg
+            inner[name] = E(self.var(name), seq.typ[5:])
+            return E(f"filter (fun {self.var(name)} => {self.truth(lam.body, inner)}) {par(seq.text)}", seq.typ)
         if isinstance(node.func, ast.Name):
             key = node.func.id
         elif isinstance(node.func, ast.Attribute):
@@ -655,7 +674,12 @@ class Translator:
                 return (f"match {value.text} with\n| Err k__ => Err k__\n| Ok {self.var(tgt.id)} =>\n"
                         f"{self.block(rest, env2, tail)}\nend")
             if isinstance(tgt, ast.Name):
-                text, env2 = self.bind(tgt.id, self.expr(stmt.value, env), env)
+                self.expect_list_type = self.spec.get("empty_lists", {}).get(tgt.id)
+                try:
+                    value = self.expr(stmt.value, env)
+                finally:
+                    self.expect_list_type = None
+                text, env2 = self.bind(tgt.id, value, env)
                 return text + self.block(rest, env2, tail)
             if isinstance(tgt, ast.Tuple) and isinstance(stmt.value, ast.Tuple) and len(tgt.elts) == len(stmt.value.elts) \
                     and all(isinstance(e, ast.Name) for e in tgt.elts):
